@@ -199,7 +199,7 @@ func init() {
 		Rule: "k mod 3 == 0: a generated document (SPDX class -> SPDX 2.3; CycloneDX trees -> 1.3, 1.4, 1.5 in turn) is written at indentation {0,1,2,4,8,17}[k] and detection is run on the output and on 8 re-encodings (white space, member shuffles, escape modes, compact): it must return exactly that format, " +
 			"the format's Type/Version/Encoding accessors must agree with the declaration, the stream offset must be 0 afterwards (instrumented ReadSeeker) and ParseStream must equal ParseStreamWithOptions(F); " +
 			"k mod 3 == 1: negative and near-miss inputs (declaration only nested / in an array / in a string, versions 1.6, 1.30, SPDX-2.1, SPDX-3.0, spdx-2.3, tag-value files whose SPDXVersion line carries an unsupported version while another line quotes a supported one, inputs without any marker) must return an error; " +
-			"k mod 3 == 2: random bytes, token soups and mutated declarations for totality and rewind only. A deliberately partial reference detector decides only the clear cases. distinct = hash of the sniffed bytes; non-trivial = decided case.",
+			"k mod 3 == 2: random bytes, token soups and mutated declarations for totality and rewind only. A deliberately partial reference detector decides only the clear cases. Re-encodings put random white space before and after the top-level value as well as between tokens; every second call of a process uses one shared Sniffer value. distinct = hash of the sniffed bytes; non-trivial = decided case.",
 		Assumptions: []string{"inputs outside both decided sets are executed for totality and rewind only", "member names differing from the declaration keys only in letter case are undecided (encoding/json matches them case-insensitively)"},
 		NCases: func(tier string) int {
 			if tier == "thorough" {
@@ -371,7 +371,19 @@ func c06Negative(r *rand.Rand, k int) ([]byte, string) {
 	cdxVer := gen.Pick(r, []string{"1.3", "1.4", "1.5"})
 	spdxVer := gen.Pick(r, []string{"SPDX-2.2", "SPDX-2.3"})
 	filler := fmt.Sprintf(`"name":%q,"version":1`, gen.TextSafe(r, 6))
-	switch k % 12 {
+	switch k % 13 {
+	case 12:
+		// valid JSON without a supported declaration whose text quotes a tag-value header on one line
+		hdr := "SPDXVersion: " + spdxVer
+		decl := gen.Pick(r, []string{`"bomFormat":"CycloneDX","specVersion":"1.6",`, `"spdxVersion":"SPDX-2.1",`, `"spdxVersion":"SPDX-3.0",`, ``, `"bomFormat":"CycloneDX",`, `"specVersion":"` + cdxVer + `",`})
+		body := gen.Pick(r, []string{
+			`"description":"` + hdr + `"`,
+			`"comment":"converted from a file that began with ` + hdr + ` DataLicense: CC0-1.0"`,
+			`"notes":["x","` + hdr + `"]`,
+			`"` + hdr + `":"as a member name"`,
+		})
+		sep := gen.Pick(r, []string{"", "\n", "\n  "})
+		return []byte(`{` + sep + decl + sep + body + `,` + sep + filler + sep + `}`), "json-without-declaration-quoting-a-tagvalue-header"
 	case 0:
 		return []byte(`{"metadata":{"bomFormat":"CycloneDX","specVersion":"` + cdxVer + `"},` + filler + `}`), "nested-declaration:cdx"
 	case 1:
